@@ -213,7 +213,7 @@ func (prop) Drive(d *core.Driver) error {
 	rm := d.Rand("mut")
 	genRejected := 0
 	for i := 0; i < nBase; i++ {
-		opt := typedprog.Options{Lib: true, Funcs: 1 + rg.Intn(4), Stmts: 3 + rg.Intn(6), Depth: 2 + rg.Intn(2)}
+		opt := typedprog.Options{Lib: true, Funcs: 1 + rg.Intn(4), Stmts: 3 + rg.Intn(6), Depth: 2 + rg.Intn(2), NoLabelledContinue: d.InScope(ScopeLabelledBranchInRange)}
 		src := typedprog.Generate(rg, opt)
 		if r := gotypes.Check(src, libImporter{}); !r.Accepted() {
 			genRejected++
